@@ -242,21 +242,32 @@ fn run_group(s: &Strat, stakes: &[u64], k: usize, seeds: &[u64]) -> Group {
     let build = || catch_unwind(AssertUnwindSafe(|| AnySampler::build(s, make_validators(stakes), k)));
     let a = build();
     let b = build();
-    let (a, b) = match (a, b) {
+    let (mut a, mut b) = match (a, b) {
         (Ok(a), Ok(b)) => (a, b),
         (Err(e), _) | (_, Err(e)) => {
             return Group { cpanic: Some(panic_msg(e)), draws: Vec::new() };
         }
     };
+    // an instance that panicked inside a draw is replaced by a fresh one (a panic ends the
+    // process in production; whatever state it leaves behind is not judged)
+    let mut draw_fresh = |s: &mut AnySampler, seed: u64| -> Run {
+        let r = draw(s, seed);
+        if !r.ok {
+            if let Ok(n) = build() {
+                *s = n;
+            }
+        }
+        r
+    };
     let mut first: Vec<(u64, Run, Run)> = Vec::new();
     for seed in seeds {
-        let r0 = draw(&a, *seed);
-        let r1 = draw(&b, *seed);
+        let r0 = draw_fresh(&mut a, *seed);
+        let r1 = draw_fresh(&mut b, *seed);
         first.push((*seed, r0, r1));
     }
     let mut draws = Vec::new();
     for (seed, r0, r1) in first {
-        let r2 = draw(&a, seed);
+        let r2 = draw_fresh(&mut a, seed);
         draws.push((seed, [r0, r1, r2]));
     }
     Group { cpanic: None, draws }
@@ -589,11 +600,11 @@ fn plan(tier: &str, seed: u64) -> Vec<(Dist, Vec<usize>)> {
     let mut add = |kind: &'static str, n: usize, gseed: u64, param: u64, ks: Vec<usize>| {
         out.push((Dist { kind, n, gseed, param }, ks));
     };
-    let reps: u64 = if thorough { 6 } else { 1 };
+    let reps: u64 = if thorough { 8 } else { 2 };
     let ns_small: Vec<usize> = if thorough {
         vec![1, 2, 3, 4, 5, 7, 11, 16, 33, 49, 63, 64, 65, 100, 128, 200]
     } else {
-        vec![1, 2, 3, 5, 11, 49, 64, 65, 200]
+        vec![1, 2, 3, 4, 5, 7, 11, 33, 49, 64, 65, 100, 200]
     };
     let kpool = [1usize, 2, 3, 5, 7, 16, 32, 49, 64, 100];
     for r in 0..reps {
@@ -621,7 +632,7 @@ fn plan(tier: &str, seed: u64) -> Vec<(Dist, Vec<usize>)> {
     // large validator sets (panics, well-formedness, determinism; floors not evaluated by TLC
     // for the lamport-scale ones)
     let ns_big: Vec<usize> = if thorough { vec![500, 1000, 2000] } else { vec![1000] };
-    for r in 0..(if thorough { 2 } else { 1 }) {
+    for r in 0..(if thorough { 3 } else { 1 }) {
         for &n in &ns_big {
             let g = seed.wrapping_mul(1000) + 50 + r;
             add("equal", n, g, 1, vec![64, n]);
